@@ -127,6 +127,37 @@ def h_bech32_decode(ex, prefix, nsym):
     E, K = _mods()
     sym = ex.text('s', nsym, 0, 255)
     s = SStr([ord(c) for c in prefix] + sym.c) if not ex.concrete else prefix + sym
+    if ex.concrete:
+        # The BCH fold is an uninterpreted symbol in the symbolic run, so a solver model fixes the VALUE of the checksum
+        # test, not six matching characters.  The obligation is universal over strings: replay also tries the model's
+        # string with its last six characters recomputed for either checksum constant - any failing string is a real
+        # counterexample of the real code.
+        for cand in [s] + _repaired(s):
+            _decode_obligations(ex, E, cand)
+        return
+    _decode_obligations(ex, E, s)
+
+
+def _repaired(s):
+    low = s.lower()
+    pos = low.rfind('1')
+    if pos < 1 or pos + 7 > len(low):
+        return []
+    data = [rb.CHARSET.find(c) for c in low[pos + 1:-6]]
+    if any(d < 0 for d in data) or any(ord(c) < 33 or ord(c) > 126 for c in low[:pos]):
+        return []
+    hrp = low[:pos]
+    exp = [ord(c) >> 5 for c in hrp] + [0] + [ord(c) & 31 for c in hrp]
+    out = []
+    for const in (1, rb.BECH32M):
+        pm = rb.polymod_formula(exp + data + [0] * 6) ^ const
+        chk = ''.join(rb.CHARSET[(pm >> (5 * (5 - i))) & 31] for i in range(6))
+        cand = s[:len(s) - 6] + (chk.upper() if s[:pos].isupper() else chk)
+        out.append(cand)
+    return out
+
+
+def _decode_obligations(ex, E, s):
     out = _lib_decode(E, s)
     ref = rb.decode_segwit(s)
     if out is None or ref is None:
@@ -210,7 +241,7 @@ def h_base58check_addr(ex):
 def jobs(tier):
     q = tier == 'quick'
     J = [Job('polymod_step', h_polymod_step, W=48, setup=setup_step)]
-    for (pre, n) in ([('bc1', 11), ('bc1', 14), ('', 8)] if q else [('bc1', 11), ('bc1', 12), ('bc1', 14), ('bc1', 17), ('tb1', 14), ('ltc1', 14), ('', 8), ('', 9), ('', 10)]):
+    for (pre, n) in ([('bc1', 11), ('bc1', 14), ('bc1', 16), ('', 8)] if q else [('bc1', 11), ('bc1', 12), ('bc1', 14), ('bc1', 17), ('tb1', 14), ('ltc1', 14), ('', 8), ('', 9), ('', 10)]):
         j = Job('bech32_decode_%s%d' % (pre, n), h_bech32_decode, W=48, setup=setup, params=dict(prefix=pre, nsym=n), budget_s=6000)
         j.cost = 100
         J.append(j)
